@@ -627,7 +627,7 @@ def _ops_text(ops):
 
 
 def run_traced(flavour, ops, scratch=None, inject=None, timeout=120, keep=False, reuse=False,
-               extra_trace=()):
+               extra_trace=(), env_extra=None):
     """Run `ops` (text or list of lines) on the `flavour` build under strace.
 
     scratch   directory to use (removed first unless reuse=True); default: a fresh one below
@@ -656,6 +656,7 @@ def run_traced(flavour, ops, scratch=None, inject=None, timeout=120, keep=False,
     env.pop("DRIVE_REUSE", None)
     if reuse:
         env["DRIVE_REUSE"] = "1"
+    env.update(env_extra or {})
     timed_out = False
     p = subprocess.Popen(cmd, stdin=subprocess.PIPE, stdout=subprocess.PIPE, stderr=subprocess.PIPE,
                          cwd=root, env=env, start_new_session=True)
